@@ -138,6 +138,8 @@ type iterInfo struct {
 	mt      *types.Map
 	mref    string
 	visited string // array name in mem
+	count      string // scalar in mem: number of keys produced so far
+	rangeInstr *ssa.Range
 	entryHas string
 	str     Val
 }
@@ -852,6 +854,8 @@ func (fr *Frame) instr(in ssa.Instruction) {
 			ex.oblige("lock", "write-map", fmt.Sprintf("(= %s 2)", fr.heldTerm(mu)), fr.curReach, "guarded map written while holding the write lock", x.Pos(), []string{"C12", "C20"})
 		}
 		ex.mapUpdate(fr.curMem, mt, m.T, fr.val(x.Key).T, fr.val(x.Value).T)
+		// a map that holds a key has at least one entry
+		ex.assume(fmt.Sprintf("(>= (select %s %s) 1)", ex.memGet(fr.curMem, "ML"), m.T), fr.curReach)
 	case *ssa.Lookup:
 		fr.lookup(x)
 	case *ssa.Slice:
